@@ -125,16 +125,18 @@ def idm_spec(prop, tier):
     q = tier == "quick"
     if prop == "C05":
         if q:
-            return idm_runs((1, 2), ("basic", "over"), 2) + idm_runs((3,), ("basic", "over1"), 2) + idm_runs((4,), ("basic",), 2)
+            return idm_runs((1, 2), ("basic", "over"), 3) + idm_runs((3,), ("basic", "over1"), 2) + idm_runs((4,), ("basic",), 2)
         return idm_runs((1, 2, 3), ("basic", "over", "reuse"), 3, 600, 300) + idm_runs((4,), ("basic", "over1"), 2, 600, 300)
     if prop == "C14":
         if q:
-            return idm_runs((1, 2), ("over", "reuse"), 2) + idm_runs((3,), ("over1", "reuse1"), 2)
+            return idm_runs((1, 2), ("over", "reuse"), 3) + idm_runs((3,), ("over1", "reuse1"), 2)
         return idm_runs((1, 2, 3), ("over", "reuse", "big"), 3, 600, 300) + idm_runs((4,), ("over1", "reuse1"), 2, 600, 300)
     if prop == "C15":
         if q:
-            return idm_runs((1, 2), ("basic", "over", "reuse"), 2) + idm_runs((3,), ("basic", "over1", "reuse1"), 2)
-        return idm_runs((1, 2, 3), ("basic", "over", "reuse", "big"), 3, 600, 300) + idm_runs((4,), ("basic", "reuse1"), 2, 600, 300)
+            return (idm_runs((1, 2), ("basic", "over", "reuse"), 3) + idm_runs((3,), ("basic", "over1", "reuse1"), 2)
+                    + [ep(1, ("hb",), 3), ep(2, ("hb",), 2)])
+        return (idm_runs((1, 2, 3), ("basic", "over", "reuse", "big"), 3, 600, 300) + idm_runs((4,), ("basic", "reuse1"), 2, 600, 300)
+                + [ep(1, ("hb",), 5, 600, 300), ep(2, ("hb",), 3, 600, 300)])
     return None
 
 
